@@ -360,6 +360,14 @@ def run_c17_part(ctx):
         sid += 1
         scs.append(mk(sid, "migrate-configured-" + kind, "migrate", [{"a": "Probe", "tag": 90}, call("c1", 11, kind),
                    {"a": "AnswerError", "tag": 11, "code": 303, "text": "PHONE_MIGRATE_2"}, {"a": "Await", "c": "c1"}, {"a": "Settle"}], dc={"dc2": 2}))
+    # after the migration the first data centre closes what is left of the abandoned connection: nothing of the client
+    # listens there any more, the requests at the second data centre are not disturbed
+    for k in range(3):
+        sid += 1
+        scs.append(mk(sid, "old-dc-closes-after-migration", "migrate", [{"a": "Probe", "tag": 90}, call("c1", 11),
+                   {"a": "AnswerError", "tag": 11, "code": 303, "text": "PHONE_MIGRATE_2"}, {"a": "Await", "c": "c1"},
+                   {"a": "CloseOld"}] + [{"a": "Probe", "tag": 91 + i} for i in range(6)] + [{"a": "Sleep", "n": 150}, {"a": "Probe", "tag": 99}, {"a": "Settle"}],
+                   dc={"dc2": 2}))
     sid += 1
     scs.append(mk(sid, "migrate-unconfigured", "migrate", [{"a": "Probe", "tag": 90}, call("c1", 11),
                {"a": "AnswerError", "tag": 11, "code": 303, "text": "PHONE_MIGRATE_9", "what": "anyerror"}, {"a": "Await", "c": "c1"}, {"a": "Settle"}], dc={"dc2": 2}))
